@@ -1,6 +1,6 @@
 (* Extraction of the compression scheduler model: ExtrOcamlBasic only. *)
 From Coq Require Import Extraction ExtrOcamlBasic.
-From LBZ Require Import SchedC.SchedCIface Gen.SchedCTab SchedC.Pool SchedC.SchedC SchedC.SchedCMem.
+From LBZ Require Import SchedC.SchedCIface Gen.SchedCTab SchedC.Pool SchedC.SchedC SchedC.SchedCMemDef.
 Extraction Language OCaml.
 Extraction "Extract/ml/schedc_model.ml" step_obs init final view select finished
   total_in total_out in_granul cap_coll cap_trans cap_reord cap_output B.
